@@ -5,7 +5,11 @@ V=$(cd "$(dirname "$0")/.." && pwd); cd $V
 declare -A CHK=( [B1-error-offset]="C10 C01 C03" [B2-array-layout]="C04 C05 C09" [B3-hex-upper]="C04 C05" [B4-ensure-slack]="C04 C05 C09 C14" [B5-stable-merge]="C19 C17 C18"
                  [B6-replace-lookup-first]="C06 C07 C08" [B7-minify-keep-slash]="C13" [B8-patch-replace-whole-array]="C17" [B9-dup-children-first-alloc]="C11 C08" [B10-plus-number]="C02 C03 C10"
                  [B11-print-buffer-512]="C04 C05 C08 C14" [B12-growth-one-and-a-half]="C04 C05 C09 C08" [B13-patch-status-renumbered]="C16" [B14-delete-iterative-children]="C07 C06 C11"
-                 [B15-parse-dispatch-order]="C01 C02 C03 C10" [B16-merge-in-place]="C18 C07" )
+                 [B15-parse-dispatch-order]="C01 C02 C03 C10" [B16-merge-in-place]="C18 C07"
+                 # written by sub-agents that were asked for property-preserving changes (and ran their own differential tests)
+                 [B17-escape-line-separators]="C04 C05 C09" [B18-parse-string-trim]="C01 C02 C08 C14 C10 C03" [B19-iterative-stable-sort]="C19 C17 C18"
+                 [B20-compare-json-shadow]="C16 C18 C19 C14 C07" [B21-print-number-route]="C04 C05 C09" [B22-delete-nonrecursive]="C07 C06 C11 C08 C14"
+                 [B23-inithooks-local]="C14" [B24-minify-restructured]="C13" )
 for b in ${@:-${!CHK[@]}}; do
   for p in ${CHK[$b]}; do
     OUT=$(MUT_LINES=2 ./tools/mutate.sh benign/$b.diff $p quick 2>&1)
